@@ -438,6 +438,16 @@ package spdxexp
 //@ pred npAt(e *expressionStream) = e.index < len(e.expression) && e.expression[e.index:e.index + 1] == "+"
 //@ pred validId(l string, nextPlus bool) = inAE(l) || (HasSuffix(l, "-only") && inAE(l[0:len(l) - 5])) || (nextPlus && inAE(l + "-or-later")) || (HasSuffix(l, "-or-later") && inAE(l[0:len(l) - 9])) || inDep(l)
 
+// Letter case of a listed id never matters (C09): a lexeme that is fold-equal to a lexeme denoting an active or
+// exception id is classified the same way and yields the same token (role and the list's own spelling).
+//@ lemma[C09] foldClassListed: forall l string, l2 string, np bool :: EqualFold(l, l2) && inAE(l) ==> normCase(l2, np) == 1 && normRole(l2, np) == normRole(l, np) && normVal(l2, np) == normVal(l, np)
+// ... and so does a deprecated id, whose case variants never look like "<listed id>-only" / "<listed id>-or-later"
+// (table hypothesis deprecatedSuffixFree, ground-evaluated; EqualFold is compatible with appending the same suffix)
+//@ fn orLater(x string) string
+//@ axiom forall x string {orLater(x)} :: orLater(x) == x + "-or-later"
+//@ axiom forall x string, y string {EqualFold(x, y), orLater(x), orLater(y)} :: EqualFold(x, y) ==> EqualFold(orLater(x), orLater(y))
+//@ lemma[C09] foldClassDeprecated: forall l string, l2 string, np bool :: orLater(l) == l + "-or-later" && orLater(l2) == l2 + "-or-later" && EqualFold(l, l2) && normCase(l, np) == 5 && !(HasSuffix(l2, "-only") && inAE(l2[0:len(l2) - 5])) && !(HasSuffix(l2, "-or-later") && inAE(l2[0:len(l2) - 9])) ==> normCase(l2, np) == 5 && normRole(l2, np) == normRole(l, np) && normVal(l2, np) == normVal(l, np)
+
 //@ func inLicenseList
 //@   modifies nothing
 //@   ensures[C05,C08,C09] result0 <==> foldc(elems(licenses), len(licenses), id)
